@@ -74,7 +74,7 @@ class Agg(Ty):
     def body(self, ind=''):
         out = []
         for m in self.members:
-            al = '_Alignas(%d) ' % m.alignas if m.alignas else ''
+            al = '_Alignas(%s) ' % (getattr(m, 'alignas_text', None) or m.alignas) if m.alignas else ''
             if m.bits is not None:
                 out.append('%s  %s%s %s: %d;' % (ind, al, m.ty.spec(), m.name or '', m.bits))
             elif m.name is None:
@@ -166,7 +166,14 @@ class Gen:
                 al = r.choice([1, 2, 4, 8, 16, 32])
                 if al < base_align(t):
                     al = None
-            ms.append(Member(self.name(), t, None, al))
+            mem = Member(self.name(), t, None, al)
+            if al:
+                # the same alignment spelled as a constant, a constant expression or a type-name whose size differs from its alignment
+                forms = {1: ['char', 'char [7]', 'struct { char c[3]; }'], 2: ['short', 'short [5]', 'struct { char c; short s; char d; }'],
+                         4: ['int', 'int [4]', 'float [3]', 'struct { char c; int i; }'], 8: ['long', 'double [3]', 'void *', 'struct { char c; long l; int z; }'],
+                         16: ['long double', 'long double [2]', 'struct { long double x; char c; }']}.get(al, [])
+                mem.alignas_text = r.choice([str(al), str(al), '%d << %d' % (1, al.bit_length() - 1), 'sizeof(char [%d])' % al] + forms)
+            ms.append(mem)
         if not any(m.name or (m.bits is None) for m in ms):
             ms.append(Member(self.name(), self.scalar()))
         a = Agg(kind, ms)
